@@ -45,7 +45,10 @@ def gen_text(rng, allow_bad_url=False):
         if r < 0.6:
             segs.append("".join(rng.choice(PLAIN) for _ in range(rng.randint(1, 6))))
         elif r < 0.75:
-            segs.append(" " + rng.choice(MATH) + " ")
+            # usually set off by blanks, sometimes glued to the neighbouring word ("the $n$th item", "x$_1$")
+            glue = rng.random() < 0.3
+            # (glued on the right only: a backslash in front of the opening dollar would escape it)
+            segs.append(" " + rng.choice(MATH) + (rng.choice(["th", "s", "x9", "_a"]) if glue else " "))
             has_math = True
         elif r < 0.95 or not allow_bad_url:
             segs.append(" " + rng.choice(URLS) + " ")
@@ -132,6 +135,7 @@ def corpus():
         {"texts": ["fine", "BOOM", "fine", "fine"], "opt": 7, "inplace": True, "then": None, "rot": 2},   # first failure inside a NameParts
         {"texts": ["fine", "fine", "fine", "BOOM"], "opt": 8, "inplace": False, "then": None, "rot": 2},
         {"texts": ["fine", "BOOM", "fine"], "opt": 7, "inplace": True, "then": None},     # first of two fields with one key fails
+        {"texts": ["the $n$th item costs 5% of $m$ units", "a$x$b & c$y$d"], "opt": 0, "inplace": True, "then": 4},   # math glued to words
         {"texts": ["fine", "fine", "BOOM"], "opt": 8, "inplace": True, "then": None},     # ... the second one fails
         {"texts": ["see https://a.b/c&d now"], "opt": 0, "inplace": True, "then": 4},           # K4
         {"texts": ["a"], "opt": 0, "inplace": True, "then": 4, "keytext": True},
